@@ -22,6 +22,7 @@ import (
 const ruleProtocol = "protocol: stepped scheduler histories (profile C07: retry-heavy worlds with scripted size-class selectors, kills, cancellations, worker loss, deduplication, background learning) where every call on a selector/learner is logged and compared per request with the reference model, plus concurrent stress rounds checked for exactly-once terminal calls; non-trivial = hit a named situation"
 
 func runProtocol(r *ev.Run) {
+	sched.DeclareFloors(r, "C07")
 	sched.RunStepped(r, "C07", r.Pick(80, 2500))
 	sched.RunStress(r, "C07", r.Pick(3, 80))
 }
